@@ -872,14 +872,35 @@ def dispatch_tables(repo: Repo) -> Dict[Tuple[str, str], Dict[str, List[Tuple[st
         mod = m.mod(sfx)
         for ci in mod.classes.values():
             fi = m.lookup(ci, "dispatch")
-            if fi is None or fi.cls is None or not fi.cls.rel.endswith(sfx) or len(fi.node.args.args) < 2:
+            if fi is None or fi.cls is None or fi.cls.rel.endswith("renderer/block.py") or len(fi.node.args.args) < 2:
+                continue
+            if any(isinstance(b_, ast.Raise) and "NotImplementedError" in src_of(b_) for b_ in fi.node.body):
+                continue
+            # abstract intermediate dispatchers (their subclasses are the dispatchers that are used)
+            if any(o is not ci and m.is_subclass(o, ci) for mo_ in m.mods.values() for o in mo_.classes.values()):
                 continue
             dn = fi.node.args.args[1].arg
             row: Dict[str, List[Tuple[str, Tuple[str, ...]]]] = {}
             for K in DEF_KINDS:
                 flow = block_flow(repo, ci.name, sfx, fcn, frel, {dn: K}, inline_props=True)
                 outs = set()
-                for p in flow.run(fi.node, {"self": V("self"), dn: V(dn)}):
+                # `type(d).__mro__` / `d.__class__.__mro__` of the scenario's class, written out
+                fn_k = fi.node
+                if any(isinstance(x_, ast.Attribute) and x_.attr == "__mro__" for x_ in ast.walk(fn_k)):
+                    import copy as _copy
+
+                    kc = m.cls(K, "_ast.py")
+                    mro_names = [c_.name for c_ in m.mro(kc)] + ["object"]
+
+                    class _T(ast.NodeTransformer):
+                        def visit_Attribute(self, n_: ast.Attribute) -> Any:
+                            if n_.attr == "__mro__" and src_of(n_.value).replace(" ", "") in (f"type({dn})", f"{dn}.__class__"):
+                                return ast.copy_location(ast.Tuple(elts=[ast.Name(id=x_, ctx=ast.Load()) for x_ in mro_names], ctx=ast.Load()), n_)
+                            return self.generic_visit(n_)
+
+                    fn_k = _T().visit(_copy.deepcopy(fi.node))
+                    ast.fix_missing_locations(fn_k)
+                for p in flow.run(fn_k, {"self": V("self"), dn: V(dn)}):
                     if p.done != "return":
                         continue
                     a = single_atom(p.ret) if p.ret is not None else None
@@ -904,6 +925,7 @@ def f11(repo: Repo) -> RuleResult:
         return {K for K, outs in row.items() if any(nm != "None" for nm, _ in outs)}
 
     langs = {"impls/c/renderer_c.py": "c", "impls/c/renderer_h.py": "c", "impls/go/renderer.py": "go", "impls/py/renderer.py": "py"}
+    dn_of: Dict[Tuple[str, str], str] = {}
     for (sfx, cname), row in sorted(T.items()):
         res.inst(part=langs.get(sfx, "?"), module=sfx.split("/")[-1], dispatcher=cname, kinds=sorted(kinds_of(row)))
         rel = "compiler/bitproto/renderer/" + sfx
@@ -919,6 +941,13 @@ def f11(repo: Repo) -> RuleResult:
                 if nm != "None":
                     continue
                 other = [c for c in conds if "optimization_mode_filter_messages" not in c and "filter_messages" not in c]
+                # a condition the engine did not see through (a lookup, a search) says nothing yet: inconclusive
+                import re as _re11
+
+                opaque = [c for c in other if not _re11.fullmatch(r"(not\()?\(?'?[\w\s,'()]*\b" + _re11.escape(dn_of.get((sfx, cname), "d")) + r"\.[\w.]+(\(\))?[^A-Za-z]*\)?", c)]
+                if other and opaque:
+                    res.unsure(f"F11: {cname}.dispatch: condition(s) {opaque[:2]} for {K} not understood")
+                    continue
                 if other or not conds:
                     f = Finding("F11", rel, 0, f"{cname}.dispatch", "; ".join(conds), f"a {K} definition gets no block on the path under {list(conds) or 'no condition'} although other {K} definitions get {sorted(blocks)[0]}: what the other files of the output declare / call for it is missing", witness="message Ping {} with -O: EncodePing is declared in the header and defined nowhere", tag=f"{cname}:{K}:conditional")
                     f.part = langs.get(sfx, "?")
